@@ -965,5 +965,141 @@ theorem not_dvd_axis {M N up : ℕ} (hM : 3 ≤ M) (hN : 0 < N) (p : ℤ) (hp0 :
     linarith
   exact hp0 (Int.eq_zero_of_abs_lt_dvd h2 h3)
 
+/-! ### swapping the images, torch variant: `torch.round` (half to even) is odd -/
+theorem roundHalfEven_eq (x : ℝ) :
+    roundHalfEven x = if x - ⌊x⌋ < 1 / 2 then ⌊x⌋ else if 1 / 2 < x - ⌊x⌋ then ⌊x⌋ + 1
+      else if ⌊x⌋ % 2 = 0 then ⌊x⌋ else ⌊x⌋ + 1 := by
+  simp [roundHalfEven]
+
+theorem roundHalfEven_add_even (x : ℝ) (n : ℤ) : roundHalfEven (x + ((2 * n : ℤ) : ℝ)) = roundHalfEven x + 2 * n := by
+  rw [roundHalfEven_eq, roundHalfEven_eq, Int.floor_add_intCast]
+  have h1 : x + ((2 * n : ℤ) : ℝ) - ((⌊x⌋ + 2 * n : ℤ) : ℝ) = x - ⌊x⌋ := by push_cast; ring
+  have h2 : (⌊x⌋ + 2 * n) % 2 = ⌊x⌋ % 2 := by omega
+  rw [h1, h2]
+  split_ifs <;> ring
+
+theorem roundHalfEven_neg (x : ℝ) : roundHalfEven (-x) = -roundHalfEven x := by
+  have hl := Int.floor_le x
+  have hu := Int.lt_floor_add_one x
+  by_cases h0 : x = (⌊x⌋ : ℝ)
+  · -- integer
+    have hx : roundHalfEven x = ⌊x⌋ := by rw [h0]; simpa using roundHalfEven_int ⌊x⌋
+    have hnx : roundHalfEven (-x) = -⌊x⌋ := by
+      rw [h0]; have := roundHalfEven_int (-⌊x⌋); push_cast at this; simpa using this
+    rw [hx, hnx]
+  · have hpos : (⌊x⌋ : ℝ) < x := lt_of_le_of_ne hl (Ne.symm h0)
+    have hfl : ⌊-x⌋ = -⌊x⌋ - 1 := by
+      rw [Int.floor_eq_iff]; push_cast; constructor <;> linarith
+    rw [roundHalfEven_eq (-x), roundHalfEven_eq x, hfl]
+    have hr : -x - ((-⌊x⌋ - 1 : ℤ) : ℝ) = 1 - (x - ⌊x⌋) := by push_cast; ring
+    rw [hr]
+    have hpar : (-⌊x⌋ - 1) % 2 = 0 ↔ ¬ (⌊x⌋ % 2 = 0) := by omega
+    by_cases c1 : x - ⌊x⌋ < 1 / 2
+    · have : ¬ (1 - (x - ⌊x⌋) < 1 / 2) := by linarith
+      have : (1 : ℝ) / 2 < 1 - (x - ⌊x⌋) := by linarith
+      simp only [c1, if_true]
+      rw [if_neg (by linarith), if_pos this]; ring
+    · by_cases c2 : 1 / 2 < x - ⌊x⌋
+      · have : 1 - (x - ⌊x⌋) < 1 / 2 := by linarith
+        rw [if_pos this, if_neg c1, if_pos c2]; ring
+      · have heq : x - ⌊x⌋ = 1 / 2 := le_antisymm (not_lt.mp c2) (not_lt.mp c1)
+        rw [heq]
+        norm_num
+        by_cases hp : ⌊x⌋ % 2 = 0
+        · rw [if_neg (hpar.not.mpr (not_not.mpr hp)), if_pos hp]; try ring
+        · rw [if_pos (hpar.mpr hp), if_neg hp]; try ring
+
+theorem parabolicT_swap (v0 v1 v2 : ℝ) : parabolicT v2 v1 v0 = -parabolicT v0 v1 v2 := by
+  unfold parabolicT
+  simp only [NumReal.ofRat_eq, NumReal.two_eq, NumReal.zero_eq, NumReal.mul_eq, NumReal.sub_eq, NumReal.div_eq]
+  have hd : ((4 : ℚ) : ℝ) * v1 - 2 * v0 - 2 * v2 = ((4 : ℚ) : ℝ) * v1 - 2 * v2 - 2 * v0 := by ring
+  rw [hd]
+  split
+  · rw [← neg_div]; congr 1; ring
+  · simp
+
+theorem centre_eq (y : ℝ) (M : ℕ) : centre y M = y - (M : ℝ) * ⌊(y + (M : ℝ) / 2) / (M : ℝ)⌋ := by
+  unfold centre
+  simp only [NumReal.ofRat_eq, NumReal.add_eq, NumReal.sub_eq]
+  have h2 : (((M : ℚ) / 2 : ℚ) : ℝ) = (M : ℝ) / 2 := by push_cast; ring
+  rw [pmod_eq, h2]; ring
+
+theorem centre_add_mul (y : ℝ) {M : ℕ} (hM : 0 < M) (k : ℤ) : centre (y + (M : ℝ) * k) M = centre y M := by
+  have hm : (M : ℝ) ≠ 0 := by positivity
+  rw [centre_eq, centre_eq]
+  have : (y + (M : ℝ) * k + (M : ℝ) / 2) / (M : ℝ) = (y + (M : ℝ) / 2) / (M : ℝ) + (k : ℝ) := by field_simp; ring
+  rw [this, Int.floor_add_intCast]; push_cast; ring
+
+theorem centre_neg (y : ℝ) {M : ℕ} (hM : 0 < M) (htie : centre y M ≠ -((M : ℝ) / 2)) :
+    centre (-y) M = -centre y M := by
+  have hm : (0 : ℝ) < M := by positivity
+  have hm' : (M : ℝ) ≠ 0 := hm.ne'
+  rw [centre_eq] at htie ⊢
+  rw [centre_eq]
+  set w := (y + (M : ℝ) / 2) / (M : ℝ) with hw
+  have hw' : (-y + (M : ℝ) / 2) / (M : ℝ) = 1 - w := by rw [hw]; field_simp; ring
+  have hne : w ≠ (⌊w⌋ : ℝ) := by
+    intro h
+    apply htie
+    have : y = (M : ℝ) * w - (M : ℝ) / 2 := by rw [hw]; field_simp; ring
+    rw [this, ← h]; ring
+  have hfl : ⌊1 - w⌋ = -⌊w⌋ := by
+    rw [Int.floor_eq_iff]
+    have h1 := Int.floor_le w
+    have h2 := Int.lt_floor_add_one w
+    have h3 : (⌊w⌋ : ℝ) < w := lt_of_le_of_ne h1 (Ne.symm hne)
+    push_cast
+    constructor <;> linarith
+  rw [hw', hfl]
+  push_cast; ring
+
+/-- **swap, torch variant (`upsample_factor ≤ 2`)** -/
+theorem shiftTorch2_mirror {M N : ℕ} (hM : 0 < M) (hN : 0 < N) {c c' : ℕ → ℕ → ℝ}
+    (hrel : ∀ s t, c' s t = c (wrap M (-(s : ℤ))) (wrap N (-(t : ℤ)))) {p q : ℕ}
+    (h : UniqueMaxAt M N c p q) :
+    ((shiftTorch2 M N c).1 ≠ -((M : ℝ) / 2) → (shiftTorch2 M N c').1 = -(shiftTorch2 M N c).1) ∧
+    ((shiftTorch2 M N c).2 ≠ -((N : ℝ) / 2) → (shiftTorch2 M N c').2 = -(shiftTorch2 M N c).2) := by
+  have h' := uniqueMax_mirror hM hN hrel h
+  have hpk : argmax2 M N c = (p, q) := argmax2_unique h
+  have hpk' : argmax2 M N c' = (wrap M (-(p : ℤ)), wrap N (-(q : ℤ))) := argmax2_unique h'
+  obtain ⟨hp, hq, _⟩ := h
+  obtain ⟨k, hk⟩ := wrap_cast_eq hM (-(p : ℤ))
+  obtain ⟨l, hl⟩ := wrap_cast_eq hN (-(q : ℤ))
+  have n1 : wrap M (-((wrap M (((wrap M (-(p : ℤ)) : ℕ) : ℤ) - 1) : ℕ) : ℤ)) = wrap M ((p : ℤ) + 1) := by
+    obtain ⟨k1, hk1⟩ := wrap_cast_eq hM (((wrap M (-(p : ℤ)) : ℕ) : ℤ) - 1)
+    rw [hk1, hk, show -(-(p : ℤ) + (M : ℤ) * k - 1 + (M : ℤ) * k1) = (p : ℤ) + 1 + (M : ℤ) * (-k - k1) by ring, wrap_add_mul]
+  have n2 : wrap M (-((wrap M (((wrap M (-(p : ℤ)) : ℕ) : ℤ) + 1) : ℕ) : ℤ)) = wrap M ((p : ℤ) - 1) := by
+    obtain ⟨k1, hk1⟩ := wrap_cast_eq hM (((wrap M (-(p : ℤ)) : ℕ) : ℤ) + 1)
+    rw [hk1, hk, show -(-(p : ℤ) + (M : ℤ) * k + 1 + (M : ℤ) * k1) = (p : ℤ) - 1 + (M : ℤ) * (-k - k1) by ring, wrap_add_mul]
+  have m1 : wrap N (-((wrap N (((wrap N (-(q : ℤ)) : ℕ) : ℤ) - 1) : ℕ) : ℤ)) = wrap N ((q : ℤ) + 1) := by
+    obtain ⟨k1, hk1⟩ := wrap_cast_eq hN (((wrap N (-(q : ℤ)) : ℕ) : ℤ) - 1)
+    rw [hk1, hl, show -(-(q : ℤ) + (N : ℤ) * l - 1 + (N : ℤ) * k1) = (q : ℤ) + 1 + (N : ℤ) * (-l - k1) by ring, wrap_add_mul]
+  have m2 : wrap N (-((wrap N (((wrap N (-(q : ℤ)) : ℕ) : ℤ) + 1) : ℕ) : ℤ)) = wrap N ((q : ℤ) - 1) := by
+    obtain ⟨k1, hk1⟩ := wrap_cast_eq hN (((wrap N (-(q : ℤ)) : ℕ) : ℤ) + 1)
+    rw [hk1, hl, show -(-(q : ℤ) + (N : ℤ) * l + 1 + (N : ℤ) * k1) = (q : ℤ) - 1 + (N : ℤ) * (-l - k1) by ring, wrap_add_mul]
+  have hkR : (((wrap M (-(p : ℤ)) : ℕ) : ℝ)) = -(p : ℝ) + (M : ℝ) * k := by exact_mod_cast hk
+  have hlR : (((wrap N (-(q : ℤ)) : ℕ) : ℝ)) = -(q : ℝ) + (N : ℝ) * l := by exact_mod_cast hl
+  -- the half-pixel rounding of the mirrored position
+  have hround : ∀ (P : ℕ) (a d : ℝ) (j : ℤ),
+      ((roundHalfEven ((-a + (P : ℝ) * j + -d) * 2) : ℤ) : ℝ) / 2
+        = -(((roundHalfEven ((a + d) * 2) : ℤ) : ℝ) / 2) + (P : ℝ) * j := by
+    intro P a d j
+    have : (-a + (P : ℝ) * j + -d) * 2 = -((a + d) * 2) + ((2 * ((P : ℤ) * j) : ℤ) : ℝ) := by push_cast; ring
+    rw [this, roundHalfEven_add_even, roundHalfEven_neg]
+    push_cast; ring
+  constructor
+  · intro htie
+    simp only [shiftTorch2, coarseTorch, hpk, hpk'] at htie ⊢
+    rw [hrel, hrel, hrel, n1, n2, wrap_neg_neg hM hp, wrap_neg_neg hN hq, parabolicT_swap]
+    simp only [NumReal.ofNat_eq, NumReal.add_eq, NumReal.mul_eq, NumReal.div_eq, NumReal.two_eq, NumReal.ofInt_eq] at htie ⊢
+    rw [hkR, hround, centre_add_mul _ hM]
+    exact centre_neg _ hM htie
+  · intro htie
+    simp only [shiftTorch2, coarseTorch, hpk, hpk'] at htie ⊢
+    rw [hrel, hrel, hrel, m1, m2, wrap_neg_neg hM hp, wrap_neg_neg hN hq, parabolicT_swap]
+    simp only [NumReal.ofNat_eq, NumReal.add_eq, NumReal.mul_eq, NumReal.div_eq, NumReal.two_eq, NumReal.ofInt_eq] at htie ⊢
+    rw [hlR, hround, centre_add_mul _ hN]
+    exact centre_neg _ hN htie
+
 end Registration
 end QuantemModel
